@@ -82,6 +82,19 @@ func (a *absCtx) valueLines(text string) []string { return a.lines(strings.Split
 
 type absFile map[string]any
 
+// fsAll merges the projections of all watched directories of an event
+func (a *absCtx) fsAll(ds []*RawDir, roles map[string]InitFile) []any {
+	out := []any{}
+	for i, d := range ds {
+		r := roles
+		if i > 0 {
+			r = nil
+		}
+		out = append(out, a.fsOf(d, r)...)
+	}
+	return out
+}
+
 func (a *absCtx) fsOf(d *RawDir, roles map[string]InitFile) []any {
 	out := []any{}
 	if d == nil || d.Missing {
@@ -413,9 +426,12 @@ func abstractRun(a *absCtx, r *ScenarioRun, drvDir string) ([]map[string]any, er
 	var out []map[string]any
 	prog := append([]string{}, s.Program...)
 	sort.Strings(prog)
-	tdir := a.path(drvDir)
 	first := true
 	for pi, p := range s.Procs {
+		tdir := a.path(drvDir)
+		if strings.HasPrefix(p.Spec.Variant, "deep") {
+			tdir += "/sub/deep"
+		}
 		raw := r.Raw[pi]
 		if len(raw) == 0 {
 			return nil, inconclusive("scenario %s: process %d left no events", s.ID, pi)
@@ -446,7 +462,11 @@ func abstractRun(a *absCtx, r *ScenarioRun, drvDir string) ([]map[string]any, er
 							}
 						}
 					}
-					out = append(out, map[string]any{"ev": "reset", "h": s.ID, "fs": a.fsOf(st, roles), "program": prog})
+					fs0 := a.fsOf(st, roles)
+					if p.Real && len(e.Dirs) > 1 {
+						fs0 = a.fsAll(e.Dirs, roles)
+					}
+					out = append(out, map[string]any{"ev": "reset", "h": s.ID, "fs": fs0, "program": prog})
 				}
 				cnt := p.Spec.Count
 				if cnt < 1 {
@@ -464,14 +484,14 @@ func abstractRun(a *absCtx, r *ScenarioRun, drvDir string) ([]map[string]any, er
 				if p.Real && p.Spec.Run == "" && idle(p, e.T) {
 					continue
 				}
-				out = append(out, map[string]any{"ev": "end", "h": s.ID, "t": e.T, "hasfs": hasfs, "fs": a.fsOf(dir0, nil)})
+				out = append(out, map[string]any{"ev": "end", "h": s.ID, "t": e.T, "hasfs": hasfs, "fs": a.fsAll(e.Dirs, nil)})
 			case "skip":
 				logs := decodeAll(e.Logs)
 				out = append(out, map[string]any{"ev": "skip", "h": s.ID, "t": e.T, "nerr": len(e.Errs), "nlog": len(logs), "logk": logKind(logs)})
 			case "noargs":
 				logs := decodeAll(e.Logs)
 				out = append(out, map[string]any{"ev": "noargs", "h": s.ID, "t": e.T, "nerr": len(e.Errs), "nlog": len(logs), "logk": logKind(logs),
-					"hasfs": hasfs, "fs": a.fsOf(dir0, nil)})
+					"hasfs": hasfs, "fs": a.fsAll(e.Dirs, nil)})
 			case "match":
 				st := steps[e.ID]
 				if st == nil {
@@ -490,7 +510,7 @@ func abstractRun(a *absCtx, r *ScenarioRun, drvDir string) ([]map[string]any, er
 				rec := map[string]any{"ev": "match", "h": s.ID, "id": e.ID, "t": e.T, "api": st.API, "cfg": crec, "upd": upd,
 					"tdir": tdir, "tbase": "main_test",
 					"nerr": len(errs), "nlog": len(logs), "logk": logKind(logs), "errk": errKind(errs), "errm": errMatchers(errs),
-					"hasfs": hasfs, "fs": a.fsOf(dir0, nil)}
+					"hasfs": hasfs, "fs": a.fsAll(e.Dirs, nil)}
 				x := st.X
 				if x == nil {
 					x = &Expect{}
@@ -533,7 +553,7 @@ func abstractRun(a *absCtx, r *ScenarioRun, drvDir string) ([]map[string]any, er
 					"sum": map[string]any{"present": sum.Present, "passed": sum.Passed, "failed": sum.Failed, "added": sum.Added,
 						"updated": sum.Updated, "skipped": sum.Skipped, "nfiles": sum.NFiles, "ntests": sum.NTests,
 						"files": files, "tests": sum.Tests, "removed": sum.Removed},
-					"hasfs": hasfs, "fs": a.fsOf(dir0, nil)})
+					"hasfs": hasfs, "fs": a.fsAll(e.Dirs, nil)})
 			default:
 				return nil, inconclusive("unknown raw event %q", e.Ev)
 			}
